@@ -196,6 +196,47 @@ func runC11(ctx *Ctx) {
 		return c
 	}, func(c *Case) error { return checkC11(ctx, c, 1) })
 	runC11Deep(ctx)
+	runC11Big(ctx)
+}
+
+// runC11Big: shared messages far larger than the random ones (a 70 000-byte
+// string, a packed run of 70 000 elements, 1100 map entries, a 70 KB unknown
+// set, ...), built by the decoder and never sized before the goroutines start:
+// whatever a codec memoises about a big message on first use is written here.
+func runC11Big(ctx *Ctx) {
+	n := 0
+	for i, t := range ctx.types() {
+		if (i+int(ctx.Seed))%3 != 0 {
+			continue
+		}
+		if ctx.Quick() && n >= 2 {
+			break
+		}
+		n++
+		for _, ss := range model.ScaleStreams(t.Desc) {
+			if len(ss.Bytes) > 1<<20 {
+				continue
+			}
+			c := &Case{Sub: "big", Type: string(t.Name), Bytes: hexs(ss.Bytes), Args: map[string]string{"procs": "16", "scale": ss.Name}}
+			for g := 0; g < 8; g++ {
+				for _, op := range []string{"size", "marshal", "detmarshal"}[g%3:] {
+					c.Ops = append(c.Ops, Op{H: g, Op: op})
+				}
+			}
+			ctx.Eval(1)
+			if err := safely(func() error { return checkC11(ctx, c, 1) }); err != nil {
+				if strings.HasPrefix(err.Error(), "HARNESS") {
+					fmt.Printf("HARNESS-ERROR %v\n", err)
+				} else {
+					c.Bytes = trunc(c.Bytes, 4000)
+					ctx.Violation(c, err.Error())
+				}
+				ctx.T.Fail()
+			} else {
+				ctx.Label("big arm: " + strings.Fields(ss.Name)[0] + " ...")
+			}
+		}
+	}
 }
 
 // runC11Deep: one shared message nested some thousand levels deep (every
@@ -264,6 +305,7 @@ func announce(ctx *Ctx, c *Case) {
 func replayC11(ctx *Ctx, c *Case) error { return checkC11(ctx, c, 25) }
 
 func checkC11(ctx *Ctx, c *Case, rounds int) error {
+	scaleBytes(c)
 	t, err := mustType(c.Type)
 	if err != nil {
 		return err
